@@ -32,11 +32,15 @@ def h_prog(e, **kw):
     return cachestep.h_prog_dcache(e, **kw)
 
 
-HARNESSES = {"step": h_step, "history": h_history, "prog": h_prog}
+def h_deep(e, **kw):
+    return cachestep.h_deep(e, **kw)
+
+
+HARNESSES = {"step": h_step, "history": h_history, "prog": h_prog, "deep": h_deep}
 
 
 def jobs(tier, seed):
-    return cachestep.step_jobs(tier, {"C03"}, "checks.c03") + cachestep.history_jobs(tier, {"C03"}, "checks.c03") + cachestep.prog_jobs(tier, seed, {"C03"}, "checks.c03")
+    return cachestep.step_jobs(tier, {"C03"}, "checks.c03") + cachestep.history_jobs(tier, {"C03"}, "checks.c03") + cachestep.deep_jobs(tier, {"C03"}, "checks.c03") + cachestep.prog_jobs(tier, seed, {"C03"}, "checks.c03")
 
 
 BUDGET = {"quick": None, "thorough": 12 * 60}
